@@ -7,6 +7,7 @@ import Driver.Ops.C12
 import Driver.Ops.C15
 import Driver.Ops.C17
 import Driver.Ops.C18
+import Driver.Ops.C19
 import Driver.Ops.Std
 namespace ZVD
 
@@ -19,6 +20,7 @@ def allOps : OpTable :=
   ++ opsC15
   ++ opsC17
   ++ opsC18
+  ++ opsC19
   ++ opsStd
 
 def dispatch (op : String) (a : Args) : Except String String :=
